@@ -35,14 +35,14 @@ Section TypingEqns.
     wt_logical ext (FFunc name args) =
     (ustr_eqb name tname_match || ustr_eqb name tname_search) &&
     match args with
-    | ECons a (ECons b ENil) => wt_comparable ext a && wt_comparable ext b
+    | ECons a (ECons b ENil) => wt_arg ext a && wt_arg ext b
     | _ => false
     end.
   Proof. reflexivity. Qed.
   Lemma wt_comparable_func name args :
     wt_comparable ext (FFunc name args) =
     if ustr_eqb name tname_length then
-      match args with ECons a ENil => wt_comparable ext a | _ => false end
+      match args with ECons a ENil => wt_arg ext a | _ => false end
     else if ustr_eqb name tname_count || ustr_eqb name tname_value then
       match args with ECons a ENil => wt_nodes ext a | _ => false end
     else false.
@@ -53,12 +53,14 @@ Section TypingEqns.
   Lemma wt_member_list items : wt_member ext (FList items) = wt_literals ext items.
   Proof. reflexivity. Qed.
 
+  Lemma wt_arg_comparable e : wt_arg ext e = true -> wt_comparable ext e = true /\ is_undefined e = false.
+  Proof. unfold wt_arg. intros H. apply andb_true_iff in H as [H1 H2]. apply negb_true_iff in H1. auto. Qed.
   Lemma wt_sel_filter e : wt_sel ext (SFilter e) = wt_logical ext e.
   Proof. reflexivity. Qed.
   Lemma wt_sels_cons s r : wt_sels ext (LCons s r) = wt_sel ext s && wt_sels ext r.
   Proof. reflexivity. Qed.
   Lemma wt_seg_sel s :
-    wt_seg ext (GSel s) = match s with SSlice _ _ _ => false | _ => wt_sel ext s end.
+    wt_seg ext (GSel s) = match s with SName _ | SWild => true | SKeys => ext | _ => false end.
   Proof. destruct s; reflexivity. Qed.
   Lemma wt_seg_list items :
     wt_seg ext (GList items) = match items with LNil => false | _ => wt_sels ext items end.
